@@ -87,8 +87,13 @@ func (o *signalHandler) addSignalUser(userID uint64, signalID, messageID uint32,
 	}
 	q := make(chan<- *net.Message)
 	cl := func(err error) {
-		// unregister user on disconnection
-		o.removeSignalUser(userID, from)
+		// the handler is being closed (connection lost, or
+		// RemoveHandler called by removeSignalUser): only the entry
+		// of the table is left to remove. RemoveHandler must not be
+		// called from here: the closer can run under the lock of the
+		// endpoint, and after a disconnection the slot number may
+		// already belong to another handler.
+		o.forgetSignalUser(userID, from)
 	}
 	newUser.contextID = e.MakeHandler(f, q, cl)
 
@@ -116,6 +121,21 @@ func (o *signalHandler) removeSignalUser(userID uint64, from Channel) error {
 	}
 	o.signalsMutex.Unlock()
 	return fmt.Errorf("unknown user id %d", userID)
+}
+
+// forgetSignalUser removes the user from the table, without touching
+// the handler of its endpoint.
+func (o *signalHandler) forgetSignalUser(userID uint64, from Channel) {
+	o.signalsMutex.Lock()
+	defer o.signalsMutex.Unlock()
+	for i, user := range o.signals {
+		if user.userID == userID &&
+			from.EndPoint() == user.context.EndPoint() {
+			o.signals[i] = o.signals[len(o.signals)-1]
+			o.signals = o.signals[:len(o.signals)-1]
+			return
+		}
+	}
 }
 
 func (o *signalHandler) RegisterEvent(msg *net.Message, from Channel) error {
